@@ -225,3 +225,29 @@ register(Contract(
     })},
     properties=['C03'], gen='head_blocks',
 ))
+
+
+# ---- _iter_branch_regions: the (begin, end) pairs of this level: a reachable block with more than one target whose
+# immediate post-dominator is immediately dominated by it (C03).  The iteration over the concealed view is used through
+# the contract of region_view_iterator (head or reachable from it, each once).
+from contracts.scfg_queries import REGION_SYNC as _RSYNC, HEADS as _HEADS
+_SG = 'scfg.graph'
+_ISTART = 'scfg.find_head()'
+_IREACH = '(b == %s or reach1(%s, %s, b))' % (_ISTART, _SG, _ISTART)
+_IBR = ('len(%s[b].jump_targets) > 1 and b in postimmdoms and immdoms[postimmdoms[b]] == b' % _SG)
+register(Contract(
+    qual=TR + ':_iter_branch_regions', params={'scfg': 'SCFG', 'immdoms': 'dict[name,name]', 'postimmdoms': 'dict[name,name]'},
+    # the ghost set holds the first components; every yielded item is (b, postimmdoms[b])
+    returns='set[name]', yield_key=0, yield_check='it[1] == postimmdoms[it[0]]',
+    requires={'regions-sync': _RSYNC.replace('self.scfg.graph', _SG),
+              'one-head': 'card(%s) == 1' % _HEADS.replace('self.graph', _SG),
+              # a consequence of one-head by find_head's proved contract, stated in the callee's words
+              'head-in': '%s in %s' % (_ISTART, _SG)},
+    raises={'KeyError': 'any(postimmdoms[b] not in immdoms for b in %s if %s and len(%s[b].jump_targets) > 1 and b in postimmdoms)'
+                        % (_SG, _IREACH, _SG)},
+    yields='{b for b in %s if %s and %s}' % (_SG, _IREACH, _IBR),
+    ensures={'exactly': 'result == {b for b in %s if %s and %s}' % (_SG, _IREACH, _IBR)},
+    loops={'for begin, node in scfg.concealed_region_view.items()': LoopSpec(done='_done', inv={
+        'yielded': '_yielded == {b for b in _done if %s}' % _IBR})},
+    properties=['C03'], gen='branch_pairs',
+))
